@@ -632,6 +632,15 @@ class Gen:
     # ---------------------------------------------------------------- driver
     def run(self, template_path):
         lines = open(template_path, encoding='utf-8').read().split('\n')
+        # //@tpl <fragment>: splice a shared template fragment (type sections, assumed-contract blocks)
+        expanded = []
+        for ln in lines:
+            if ln.strip().startswith('//@tpl '):
+                fp = os.path.join(VERIF, 'verus', 'fragments', ln.split()[1])
+                expanded += open(fp, encoding='utf-8').read().rstrip('\n').split('\n')
+            else:
+                expanded.append(ln)
+        lines = expanded
         i = 0
         while i < len(lines):
             ln = lines[i]
